@@ -8,7 +8,7 @@ From SCC Require Import Base.Sexp Lang.AxSyn Sem.AxSem Sem.AxHeap Model.ParMoves
      Model.Linearize Model.LinCheck Generated.Constants Proof.LinBasics Proof.LinTyping Proof.X86State Proof.X86Sel Proof.X86Exec Proof.X86ParMoves
      Proof.SubstGraph Proof.X86Subst Proof.X86SimRel Proof.X86SimStmt Proof.X86SimAddr Proof.X86SimClo
      Proof.X86HeapDefs Proof.X86HeapCongr Proof.X86HBridge Proof.X86HFrame
-     Proof.X86HSimRel Proof.X86HSimStmt Proof.X86HConv Proof.X86HSimStore Proof.X86HSimLoad Proof.X86HLayout Proof.X86HSimHeapA.
+     Proof.X86HSimRel Proof.X86HSimStmt Proof.X86HConv Proof.X86HSimStore Proof.X86HSimLoad Proof.X86HLayout Proof.X86HSimHeapA Proof.X86HAnn.
 From SCC Require Model.Heap Proof.HeapMore Proof.HeapTrace Proof.HeapRep.
 Import ListNotations.
 Open Scope Z_scope.
@@ -63,7 +63,7 @@ Definition hclo_ok (a : Z) (tn : ident) (cls : list clause) (cenv : ctx) : Prop 
       (forall s, exec_to im i s pcc s) /\
       x_load cenv (cl_ctx c) lcl = Ok (cl, lcb) /\ xcs (ptypes p) (cl_body c) (cl_ctx c ++ cenv) lcb = Ok (cb, lcb') /\
       code_at im pcc (cl ++ cb) /\ labels_at_nh im pcc (cl ++ cb) /\
-      lin_check (sigs_of p) (cl_ctx c ++ cenv) (cl_body c) = true.
+      lin_check (sigs_of p) (cl_ctx c ++ cenv) (cl_body c) = true /\ ann_check (cl_ctx c ++ cenv) (cl_body c) = true.
 
 Local Notation hrel := (hrel (ptypes p) hclo_ok).
 Local Notation hvrep := (hvrep (ptypes p) hclo_ok).
@@ -160,7 +160,7 @@ Qed.
 Theorem hsim_create c he hs s sp v t env cls next lc code lc' pc he0 cap tn ce hl fl cl :
   hrel c he hs s sp ->
   lin_check (sigs_of p) c (Create v t (Some env) cls next) = true ->
-  skipn (List.length c - List.length env) c = env ->
+  skipn (List.length c - List.length env) c = env -> ann_clauses_cr env cls = true ->
   xcs (ptypes p) (Create v t (Some env) cls next) c lc = Ok (code, lc') -> code_at im pc code -> labels_at_nh im pc code ->
   (forall lcx, is_hash_label (type_label t lcx) = false) ->
   ty_name t = Some tn -> AxSem.split_last (List.length env) he = Some (he0, cap) ->
@@ -175,7 +175,7 @@ Theorem hsim_create c he hs s sp v t env cls next lc code lc' pc he0 cap tn ce h
     exec_to im pc s (padd pc (List.length c12)) s' /\
     hrel (c0 ++ [mkb v Cns t]) (he0 ++ [(v, VClo tn cls ce, fst res)]) (snd res) s' sp /\ hframe_eq s s' sp.
 Proof.
-  intros R LC ANN CS CA LA NHL TN SL BD IA K03 EX res HF HH0 HF0.
+  intros R LC ANN ANC CS CA LA NHL TN SL BD IA K03 EX res HF HH0 HF0.
   destruct (cs_create _ _ _ _ _ _ _ _ _ _ CS) as (rest & cenv & c1 & lc1 & tmpv & c3 & lc3 & c5 & BS & XS & TV & NX & CC & ->).
   apply bsplit_last_app in BS as [-> LA1]. apply asplit_last_app in SL as [-> LF].
   apply ty_name_Decl in TN. subst t.
@@ -229,7 +229,9 @@ Proof.
                 CAL LAL (NHL _) CC AL k cl0 Hk) as (i & pcc & lcl & cl1 & lcb & cb & lcb' & IX & (pca & PA) & ARR & _ & LD & BD' & CAb & LAb).
     exists i, pcc, lcl, cl1, lcb, cb, lcb'. split; [exact IX|]. split; [exact (SMALL _ _ PA)|]. split; [exact ARR|].
     split; [exact LD|]. split; [exact BD'|]. split; [exact CAb|]. split; [exact LAb|].
-    unfold lin_clauses_cr in LCc. rewrite forallb_forall in LCc. apply LCc. eapply nth_error_In; eauto. }
+    split.
+    - unfold lin_clauses_cr in LCc. rewrite forallb_forall in LCc. apply LCc. eapply nth_error_In; eauto.
+    - unfold ann_clauses_cr in ANC. rewrite forallb_forall in ANC. apply ANC. eapply nth_error_In; eauto. }
   (* the code address *)
   assert (T2 : xtpos Snd (List.length rest) = Ok tmpv).
   { rewrite <- TV. symmetry. change (idn v) with (idn (bvar (mkb v Cns (Decl tn)))). apply vt_tpos; auto. apply nth_error_mid. }
